@@ -59,9 +59,18 @@ def gen_numeric_feature(s, name, lattice_size, allow_unimodal, p_mono=0.7):
   unimodality = 0
   if allow_unimodal and mono == 0 and lattice_size >= 3 and s.chance(0.45):
     unimodality = s.choice(["valley", "peak", 1, -1])
+  fregs = []
+  if s.sub("feature-regs").chance(0.25):
+    # Per-feature calibrator regularizers (the 'calib_' prefix is accepted by
+    # every model kind).
+    rs = s.sub("feature-regs-v")
+    fregs.append([rs.choice(["calib_hessian", "calib_laplacian",
+                             "calib_wrinkle"]),
+                  _r(rs.log10_uniform(-4, -2), 5), _r(rs.log10_uniform(-4, -2), 5)])
   return {
       "name": name,
       "type": "num",
+      "regularizers": fregs,
       "keypoints_numpy": s.sub("kp-numpy").chance(0.35),
       "lattice_size": lattice_size,
       "monotonicity": spelled,
@@ -108,7 +117,11 @@ def direction_of(f):
 
 
 def feature_config(tfl, f, extra=None):
-  extra = extra or {}
+  extra = dict(extra or {})
+  if f.get("regularizers"):
+    extra["regularizer_configs"] = [
+        tfl.configs.RegularizerConfig(name=r[0], l1=r[1], l2=r[2])
+        for r in f["regularizers"]]
   if f["type"] == "cat":
     return tfl.configs.FeatureConfig(
         name=f["name"],
@@ -288,8 +301,9 @@ class PremadeBuilder(object):
       if len(mains) >= 2:
         model["dominances"] = _gen_dominances(s.sub("dom"), mains)
     model["regularizers"] = []
-    if s.chance(0.15):
-      model["regularizers"].append(["calib_laplacian", 0.0, 1e-3])
+    if s.chance(0.3):
+      model["regularizers"].append([s.choice(["calib_laplacian",
+                                              "calib_hessian"]), 0.0, 1e-3])
     if s.chance(0.1) and param == "all_vertices" and kind != "linear":
       model["regularizers"].append([s.choice(["torsion", "laplacian"]), 1e-3,
                                     1e-3])
